@@ -1437,8 +1437,32 @@ class FA:
                     todo.append(n)
         return out
 
-    def _search(self, starts, goal, avoid, cut_edges, incl, want_path, states=()):
+    def _decides_call(self, bb, envt):
+        """If the switch ending block bb branches on the (possibly negated, possibly stored) bool result of a call:
+        (call_bb, negated, false_target), else None."""
+        t = self.b.blocks[bb]["term"]
+        if t["t"] != "switch":
+            return None
+        env = self.env_before_term(bb, envt)
+        p = op_place(t["discr"])
+        v = env.get(p["l"]) if p is not None and not p["p"] else None
+        if v is not None and v[0] == "call":
+            return (v[1], v[2], {a: tg for a, tg in t["arms"]}.get(0))
+        return None
+
+    def _search(self, starts, goal, avoid, cut_edges, incl, want_path, states=(), forced_calls=None):
         goal = None if goal is None else set(goal)
+        forced_calls = forced_calls or {}
+
+        def allowed(bb, envt, x):
+            """with `forced_calls` {call_bb: outcome}: a branch that decides on such a call takes only the matching arm"""
+            if not forced_calls:
+                return True
+            dc = self._decides_call(bb, envt)
+            if dc is None or dc[0] not in forced_calls:
+                return True
+            taken_true = x != dc[2]
+            return (taken_true != dc[1]) == forced_calls[dc[0]]
         prev = {}
         dq = deque()
         seen_blocks = set()
@@ -1477,7 +1501,7 @@ class FA:
         else:
             for s in starts:
                 for (x, e) in self._step(s, ()):
-                    if (s, x) in cut_edges or x in avoid:
+                    if (s, x) in cut_edges or x in avoid or not allowed(s, (), x):
                         continue
                     st = (x, e)
                     if push(st, s) and goal is not None and x in goal:
@@ -1487,23 +1511,23 @@ class FA:
                 return "cap"
             st = dq.popleft()
             for (x, e) in self._step(st[0], st[1]):
-                if (st[0], x) in cut_edges or x in avoid:
+                if (st[0], x) in cut_edges or x in avoid or not allowed(st[0], st[1], x):
                     continue
                 n = (x, e)
                 if push(n, st) and goal is not None and x in goal:
                     return unwind(n) if want_path else True
         return seen_blocks if goal is None else None
 
-    def path(self, starts, goal, avoid=frozenset(), cut_edges=frozenset(), incl=False, states=()):
+    def path(self, starts, goal, avoid=frozenset(), cut_edges=frozenset(), incl=False, states=(), forced_calls=None):
         """A feasible witness path (list of blocks) from a start block (nothing known on entry) or from one of the
         given (block, env) `states` to a block of `goal`, or None."""
-        r = self._search(list(starts), list(goal), frozenset(avoid), frozenset(cut_edges), incl, True, states=tuple(states))
+        r = self._search(list(starts), list(goal), frozenset(avoid), frozenset(cut_edges), incl, True, states=tuple(states), forced_calls=forced_calls)
         if r == "cap":
             return self.ba.path(list(starts) + [st[0] for st in states], goal, avoid=frozenset(avoid), cut_edges=frozenset(cut_edges), incl=True if states else incl)
         return r
 
-    def reach_incl(self, starts, avoid=frozenset(), cut_edges=frozenset()):
-        r = self._search(list(starts), None, frozenset(avoid), frozenset(cut_edges), True, False)
+    def reach_incl(self, starts, avoid=frozenset(), cut_edges=frozenset(), forced_calls=None):
+        r = self._search(list(starts), None, frozenset(avoid), frozenset(cut_edges), True, False, forced_calls=forced_calls)
         if r == "cap":
             return self.ba.reach_incl(starts, avoid=frozenset(avoid), cut_edges=frozenset(cut_edges))
         return r
